@@ -2200,8 +2200,14 @@ class x86_mn(x86_mn_base):
         prefix = self.prefix[:]
         mnemo = [ self.m.name ]
         if self.m.modifs[mmx]:
-            if len(prefix) == 0: p = 0
-            else: p = prefix.pop()
+            # the mandatory prefix is the last 66/F2/F3 prefix; segment or
+            # address-size prefixes may follow it
+            p = 0
+            for q in reversed(prefix):
+                if q in mmx_prefixes:
+                    p = q
+                    prefix.remove(q)
+                    break
             p = mmx_prefixes.index(p)
             mnemo[0] = mmx_set_suffix(self.m.name, p)
             if mnemo[0] == 'movlps' \
